@@ -388,36 +388,47 @@ func TestC15(t *testing.T) {
 		if ti.SetFg == "" && ti.SetBg == "" {
 			continue
 		}
+		// the colour count is the description's own (as shipped), not what a
+		// lookup may have turned it into
+		colors := hx.PristineColors(name)
 		top := 300
-		if ti.Colors > 256 {
+		if colors > 256 {
 			// direct-colour entries: their strings can only express the
 			// 256 palette entries; larger "in range" values have no meaning
 			// the statement defines
 			top = 255
 		}
-		for fg := -1; fg <= top; fg++ {
-			for bg := -1; bg <= top; bg += 1 + (fg+1)%3 {
-				s := ti.TColor(fg, bg)
-				term := vt.New(2, 1, nil)
-				term.Write([]byte(s))
-				if len(term.Errors) > 0 || !term.InGround() {
-					f := &hx.Failure{Tag: "C15/color", Msg: fmt.Sprintf("%s: TColor(%d,%d) = %q is not a well-formed control sequence: %v", name, fg, bg, s, term.Errors)}
-					report(t, f, map[string]interface{}{"kind": "color", "term": name})
+		// ... and the same after the entry has (also) been looked up under
+		// its -truecolor name: the palette strings are still the entry's
+		tis := []*terminfo.Terminfo{ti, hx.Term(name, true), hx.Term(name, false)}
+		for vi, ti := range tis {
+			for fg := -1; fg <= top; fg++ {
+				if vi > 0 && fg%5 != 0 && fg > 20 {
+					continue
 				}
-				exp := func(i int) vt.Color {
-					if ti.Colors == 8 && i > 7 && i < 16 {
-						i -= 8
+				for bg := -1; bg <= top; bg += 1 + (fg+1)%3 {
+					s := ti.TColor(fg, bg)
+					term := vt.New(2, 1, nil)
+					term.Write([]byte(s))
+					if len(term.Errors) > 0 || !term.InGround() {
+						f := &hx.Failure{Tag: "C15/color", Msg: fmt.Sprintf("%s: TColor(%d,%d) = %q is not a well-formed control sequence: %v", name, fg, bg, s, term.Errors)}
+						report(t, f, map[string]interface{}{"kind": "color", "term": name})
 					}
-					if i < 0 || i >= ti.Colors {
-						return vt.Color{}
+					exp := func(i int) vt.Color {
+						if colors == 8 && i > 7 && i < 16 {
+							i -= 8
+						}
+						if i < 0 || i >= colors {
+							return vt.Color{}
+						}
+						return vt.Color{Kind: vt.ColPalette, V: i}
 					}
-					return vt.Color{Kind: vt.ColPalette, V: i}
+					if term.Pen.Fg != exp(fg) || term.Pen.Bg != exp(bg) || term.Pen.Attr != 0 || term.Pen.Ul != 0 {
+						f := &hx.Failure{Tag: "C15/color", Msg: fmt.Sprintf("%s (%d colours): TColor(%d,%d) = %q selects fg %v bg %v, expected fg %v bg %v", name, colors, fg, bg, s, term.Pen.Fg, term.Pen.Bg, exp(fg), exp(bg))}
+						report(t, f, map[string]interface{}{"kind": "color", "term": name})
+					}
+					hx.St.Enumerated["C15 TColor pairs"]++
 				}
-				if term.Pen.Fg != exp(fg) || term.Pen.Bg != exp(bg) || term.Pen.Attr != 0 || term.Pen.Ul != 0 {
-					f := &hx.Failure{Tag: "C15/color", Msg: fmt.Sprintf("%s (%d colours): TColor(%d,%d) = %q selects fg %v bg %v, expected fg %v bg %v", name, ti.Colors, fg, bg, s, term.Pen.Fg, term.Pen.Bg, exp(fg), exp(bg))}
-					report(t, f, map[string]interface{}{"kind": "color", "term": name})
-				}
-				hx.St.Enumerated["C15 TColor pairs"]++
 			}
 		}
 	}
